@@ -67,6 +67,7 @@ func sState(c *Ctx, rule string) {
 				}
 			}
 			c.Check(rule, pp.set+":stores-pair", c.P.Pos(fn.Pos()), "stores (index, term) into ("+pp.idx+", "+pp.term+")", ok, strings.Join(got, ", "), 1)
+			settersUnconditional(c, rule, pp.set, "raftState", pp.idx, pp.term)
 		}
 	}
 	// each of the four position fields has exactly its setter as writer
@@ -164,6 +165,7 @@ func sState(c *Ctx, rule string) {
 			}
 		}
 		c.Check(rule, sp.fn+":stores-pair", c.P.Pos(fn.Pos()), "stores (configuration, index) into configurations."+sp.cfg+" / ."+sp.idx, ok, strings.Join(got, ", "), 1)
+		settersUnconditional(c, rule, sp.fn, "configurations", sp.cfg, sp.idx)
 	}
 	if fn := c.Fn(rule, "(*Raft).processConfigurationLogEntry"); fn != nil {
 		for _, s := range c.P.CallsIn(fn, engine.Is("(*Raft).setLatestConfiguration")) {
@@ -262,5 +264,41 @@ func sTransferFlag(c *Ctx, rule string) {
 				c.Check(rule, "leaderLoop:"+strings.TrimPrefix(chd, "recv.")+"-arm-tests-transfer-first", c.P.InstrPos(sel), "the arm's first action is the leadership-transfer test (requests are refused, not queued, while leadership is being handed over)", first == "(*Raft).getLeadershipTransferInProgress", "first call: "+first, 1)
 			}
 		}
+	}
+}
+
+
+// settersUnconditional: a plain setter writes its fields on every path – a
+// guard such as "only if the index moves forward" silently drops the rollback
+// that callers rely on (appendEntries re-installing the committed
+// configuration after truncating an uncommitted one, setLastLog after a
+// wholesale log reset).
+func settersUnconditional(c *Ctx, rule, fnName string, typ string, fields ...string) {
+	fn := c.P.Fn(fnName)
+	if fn == nil {
+		return
+	}
+	var tracks []engine.Track
+	for _, f := range fields {
+		fv := c.P.LookupField(typ, f)
+		if fv == nil {
+			continue
+		}
+		fv2 := fv
+		tracks = append(tracks, engine.Event(f, func(in ssa.Instruction) bool {
+			_, ok := c.P.StoredValue(in, fv2)
+			return ok
+		}))
+	}
+	r := c.Run(&engine.Automaton{Fn: fn, Tracks: tracks})
+	for i, ret := range engine.RawReturnsOf(fn) {
+		c.RequireAt(r, rule, fmt.Sprintf("%s:writes-on-every-path#%d", fnName, i+1), ret, "the setter stores "+strings.Join(fields, " and ")+" on every path (no early return, no guard)", func(v engine.View) bool {
+			for _, f := range fields {
+				if !v.Seen(f) {
+					return false
+				}
+			}
+			return true
+		})
 	}
 }
